@@ -99,7 +99,7 @@ deriving DecidableEq, Repr
 
 structure State where
   cfg        : Cfg
-  fix        : Bool
+  fix        : Patch
   stages     : Stages
   pool       : Pool
   walker     : Option Walker
@@ -329,7 +329,7 @@ def step (st : State) (idx : Nat) (elapsed : Bool) : State :=
         | .ok (st2, some c') => { st2 with bag := st2.bag ++ [c'] }
 
 /-- `BuildParallelProcessor` + `Scheduler.Init` -/
-def init (c : Cfg) (fix : Bool) (files : Files) : Except Err State :=
+def init (c : Cfg) (fix : Patch) (files : Files) : Except Err State :=
   match initStages c files with
   | .error e => .error e
   | .ok s =>
